@@ -680,6 +680,17 @@ func c20run(c *runner.Ctx) runner.Result {
 		}
 		lower := r.P(1, 6)
 		base := "SELECT * FROM `" + t.Key + "`" + whereSQL(w, lower, r)
+		// the filtered result may also come from a parenthesised subquery (with or without a larger
+		// LIMIT of its own): the outer LIMIT still returns its first n rows
+		form := "plain"
+		if !zero && s%3 == 1 {
+			form = "subquery"
+			base = "SELECT * FROM (" + base + ")"
+		} else if !zero && s%3 == 2 {
+			form = "subquery_with_inner_limit"
+			base = fmt.Sprintf("SELECT * FROM (%s LIMIT %d)", base, n+1+r.Intn(4))
+		}
+		res.Count("limit_statements_"+form, 1)
 		lim := fmt.Sprintf(" LIMIT %d", n)
 		if lower {
 			lim = fmt.Sprintf(" limit %d", n)
@@ -706,7 +717,7 @@ func c20run(c *runner.Ctx) runner.Result {
 			case n == 1:
 				cl = "n=1"
 			}
-			res.Sigs = append(res.Sigs, fmt.Sprintf("limit|%s|%s|where=%v", vf(t), cl, len(w) > 0))
+			res.Sigs = append(res.Sigs, fmt.Sprintf("limit|%s|%s|where=%v|%s", vf(t), cl, len(w) > 0, form))
 		}
 		wit := map[string]interface{}{"table": t.describe(), "statement": stmt, "expected_rows": idxDump(t, exp), "actual": o.describe()}
 		diff := matchSelectAll(t, exp, o)
